@@ -282,4 +282,10 @@ def rule_d(ctx: Ctx) -> None:
                 'raised and reported; iter_errors yields every tuple absent from the referenced key table.')
 
 
-RULES = [rule_a, rule_b, rule_c, rule_d]
+def rule_e(ctx: Ctx) -> None:
+    from .common import context_copy_shares
+    context_copy_shares(ctx, 'C08.e', ('id_map', 'identities'))
+    ctx.explain('C08.e: the ID table and the identity counters are document-wide: a copied context shares them.')
+
+
+RULES = [rule_a, rule_b, rule_c, rule_d, rule_e]
